@@ -97,7 +97,12 @@ def run(ctx):
         raise estim.MachineryFailure("comparator accepted a perturbed value")
     sessions = []
     for sid in range(1, (30 if q else 300) + 1):
-        if sid % 2:
+        if sid % 6 == 1:
+            # repertoire-sized singleton / doubleton counts with a small rational ratio f1/f2 (exact in 32-bit rationals)
+            f2 = ctx.rng.choice([1000, 5000, 20000, 50000])
+            n = [f2 * ctx.rng.choice([1, 2, 3, 6, 12]), f2] + [ctx.rng.randint(0, 900) for _ in range(ctx.rng.randint(0, 3))]
+            sessions.append(dict(sid=sid, kind="fof", n=n, m=[]))
+        elif sid % 2:
             n = [ctx.rng.randint(0, 9 if i < 2 else 40) for i in range(ctx.rng.randint(1, 8))]   # f1, f2 small: r^4 must fit 32-bit rationals
             sessions.append(dict(sid=sid, kind="fof", n=n, m=[]))
         else:
